@@ -220,7 +220,10 @@ def run(ctx, chk):
     prog = ctx.program('default')
     rf = CORE + 'run_frame'
     if rf in prog.fns:
-        callees = sorted(set(n for bb, t, names in prog.call_sites(rf) for n in names))
+        # run_frame and the private helpers it is split into
+        rfam = private_family(prog, rf)
+        callees = sorted(set(n for f_ in rfam if f_ in prog.fns for bb, t, names in prog.call_sites(f_) for n in names
+                             if n not in rfam and not n.startswith('<') and not n.startswith('std::cmp')))
         allowed = {CORE + 'update', 'devices::video::VideoState::get_current_mode'}
         if set(callees) <= allowed and CORE + 'update' in callees:
             chk.ok('C09.7', 'run_frame', sample={'callees': callees})
